@@ -73,7 +73,7 @@ theorem yly_periodic (r : Rule) (p : Inst) (hr : WfRule r) (_hp : WfInst p) (hy 
     | false => rfl
     | true => have := ltP_trans hu hlt; rw [hx.2.2.1] at this; cases this
 
-theorem yly_targetHyp (r : Rule) (p : Inst) (nti : Nat) (hr : WfRule r) (hp : WfInst p) (hs : SeedOk r p)
+theorem yly_targetHyp (r : Rule) (p : Inst) (nti : Nat) (hr : WfRule r) (hp : WfInst p)
     (hsup : YlySup r) (hy : 1901 ≤ p.y) :
     TargetHyp (mkFillCtx r p nti) 64 (fun y : Nat => y) (yE r p nti)
       (fun y => (y + r.inter) % u32) (yReach r p) (yG r p) (yTarget r p) (yGi r p) := by
@@ -104,7 +104,7 @@ theorem yly_targetHyp (r : Rule) (p : Inst) (nti : Nat) (hr : WfRule r) (hp : Wf
     have hy2 : y ≤ 2099 := by omega
     refine ⟨hy2, ?_⟩
     obtain ⟨b1, _, b4, b5⟩ := (ylyInst_iff r p x).1 hx.1
-    obtain ⟨t1, t2, t3⟩ := enum_of_exp hp hs (kindOk_of_same b1) b5
+    obtain ⟨t1, t2, t3⟩ := enum_of_exp hp (kindOk_of_same b1) b5
     have : 0 ≤ j * r.inter := Nat.zero_le _
     exact (mem_yE_iff r p nti hr hp hsup hy y ⟨by omega, hy2⟩ x).2
       ⟨e1, b1.1, b1.2.1, b1.2.2.1, b1.2.2.2.1, b4, b1.2.2.2.2.1, t1, t2, t3⟩
